@@ -69,8 +69,8 @@ PROPS = {
 
 # floors = 90 % of the obligation counts measured on the unchanged tree (quick: min over seeds 0 and 1; thorough: seed 0)
 _COUNTED = {
-    "quick": {"C01": 6909, "C02": 86187, "C03": 79499, "C04": 4629, "C05": 4298, "C06": 14930, "C07": 12161, "C08": 1690, "C09": 2697, "C10": 2176, "C11": 26426, "C12": 111616, "C13": 5259, "C14": 4230, "C15": 38975, "C16": 102745, "C17": 113588, "C18": 2857, "C19": 46},
-    "thorough": {"C01": 65854, "C02": 473811, "C03": 303611, "C04": 45880, "C05": 26242, "C06": 43720, "C07": 21320, "C08": 4789, "C09": 7344, "C10": 5721, "C11": 344785, "C12": 616812, "C13": 13587, "C14": 12583, "C15": 217627, "C16": 501965, "C17": 715184, "C18": 7394, "C19": 87},
+    "quick": {"C01": 9298, "C02": 87117, "C03": 80539, "C04": 4929, "C05": 4298, "C06": 15698, "C07": 12698, "C08": 1690, "C09": 3505, "C10": 2818, "C11": 27313, "C12": 112906, "C13": 5259, "C14": 4368, "C15": 39699, "C16": 103884, "C17": 117494, "C18": 2984, "C19": 47},
+    "thorough": {"C01": 72633, "C02": 476183, "C03": 304651, "C04": 46798, "C05": 26242, "C06": 45210, "C07": 22019, "C08": 4789, "C09": 7792, "C10": 6420, "C11": 234168, "C12": 619956, "C13": 13587, "C14": 12811, "C15": 219536, "C16": 504804, "C17": 724232, "C18": 7628, "C19": 87},
 }
 for _pid, _m in PROPS.items():
     _m["floor"] = {"quick": _COUNTED["quick"][_pid] * 9 // 10, "thorough": _COUNTED["thorough"][_pid] * 9 // 10}
